@@ -46,7 +46,11 @@ pub fn literal<'a>() -> impl Parser<'a, &'a str, Literal, Err<'a>> + Clone {
     recursive(|literal| {
         let int = just("-")
             .or_not()
-            .then(text::int(10).from_str::<u64>().unwrapped())
+            .then(
+                text::int(10).try_map(|s: &str, span| {
+                    s.parse::<u64>().map_err(|e| Rich::custom(span, e))
+                }),
+            )
             .map(|(sign, val)| {
                 Literal::Int(if sign.is_some() {
                     -(val as i64)
@@ -156,9 +160,9 @@ pub fn parser<'a>() -> impl Parser<'a, &'a str, Dqe, Err<'a>> {
             .boxed();
 
         let mb_usize = text::int(10)
+            .try_map(|s: &str, span| s.parse::<usize>().map_err(|e| Rich::custom(span, e)))
             .or_not()
-            .padded()
-            .map(|v: Option<&str>| v.map(|v| v.parse::<usize>().unwrap()));
+            .padded();
 
         let slice_op = mb_usize
             .then_ignore(just("..").padded())
